@@ -1048,6 +1048,61 @@ def rule_T5b(ctx, rule: str = "T5") -> None:
         ctx.proved(rule, "load:singular-occurrence-always-stored", mod.loc(load), f"{n} paths")
 
 
+def rule_T7(ctx, rule: str = "T7") -> None:
+    """every field key ((number << 3) | wire type) leaves _serialize_single through the varint encoder; a fixed-width
+    shortcut (to_bytes / bytes([..]) / pack) is only right where the path has established that the key fits 7 bits"""
+    m = model(ctx)
+    mod = m.mod
+    ser = mod.func("_serialize_single")
+    sparams = [a.arg for a in ser.args.args]
+    fnum = N(sparams[0])
+    n_keys = 0
+    bad = None
+    for t in TYPE_NAMES:
+        paths = Interp(mod, bindings={N(sparams[1]): t}, fork_ifexp=True).run(ser)
+        ctx.count(len(paths))
+        for p in paths:
+            if p.outcome == "raise":
+                continue
+            terms = [e.data for e in p.events if e.kind in ("call", "return") and isinstance(e.data, tuple)]
+            terms += [e.data[2] for e in p.events if e.kind == "aug"] + [e.data[1] for e in p.events if e.kind == "store"]
+            for top in terms:
+                for c in walk(top):
+                    if c[0] != "call":
+                        continue
+                    # a call that takes the key directly (its argument / receiver is the key expression itself)
+                    direct = [a for a in c[2] if _key_wire(a, fnum) is not None]
+                    if c[1][0] == "a" and _key_wire(c[1][1], fnum) is not None:
+                        direct.append(c[1][1])
+                    if not direct:
+                        continue
+                    n_keys += 1
+                    callee = dotted(c[1]).split(".")[-1] if c[1][0] != "a" or _key_wire(c[1][1], fnum) is None else c[1][2]
+                    if callee in ("encode_varint", "dump_varint", "size_varint"):
+                        continue
+                    # fixed-width encoding: the path must bound the field number below 16 (key < 128)
+                    bounded = False
+                    for k, v in p.valuation.items():
+                        if k[0] == "op" and k[1] == "<" and k[2] == fnum and k[3][0] == "c" and isinstance(k[3][1], int) and v and k[3][1] <= 16:
+                            bounded = True
+                        if k[0] == "op" and k[1] == "<" and k[3] == fnum and k[2][0] == "c" and isinstance(k[2][1], int) and not v and k[2][1] <= 15:
+                            bounded = True
+                        if k[0] == "op" and k[1] == "<" and _key_wire(k[2], fnum) is not None and k[3][0] == "c" and isinstance(k[3][1], int) and v and k[3][1] <= 128:
+                            bounded = True
+                    if not bounded:
+                        bad = bad or (t, callee, {show(k): v for k, v in p.valuation.items() if fnum in list(walk(k))})
+    loc = mod.loc(ser)
+    if bad:
+        t, callee, guard = bad
+        ctx.refuted(rule, "_serialize_single:key-through-varint", f"{callee}:{guard}", loc,
+                    f"the key of a {t} field is turned into bytes by {callee} on a path guarded only by {guard}: a key is a varint, and (number << 3 | wire type) needs two bytes from field "
+                    "number 16 on - one byte holds the 8-bit value with the continuation bit set and every parser misreads the field", "a field numbered 16")
+    elif n_keys:
+        ctx.proved(rule, "_serialize_single:key-through-varint", loc, f"{n_keys} key occurrences")
+    else:
+        ctx.inconclusive(rule, "_serialize_single:key-through-varint", "no key expression found", loc)
+
+
 def rule_W3(ctx) -> None:
     """alternative encodings: unpacked occurrences of packable types are appended"""
     m = model(ctx)
